@@ -19,6 +19,31 @@ WIDTH = {'uint8': 1, 'int32_le': 4, 'int32_be': 4, 'int64_le': 8, 'int64_be': 8,
          'double_le': 8, 'double_be': 8}
 ENG = 'djinterop::engine::'
 
+# std algorithms that write a run of bytes through an output cursor and return the advanced cursor
+STD_FILL = ('fill_n',)
+STD_COPY = ('transform', 'copy')
+# std algorithms that read every element of [first, last) without storing any
+STD_SCAN = ('any_of', 'all_of', 'none_of', 'find_if', 'find_if_not', 'find', 'count', 'count_if', 'for_each')
+
+
+def is_cursor_type(t):
+    """std::byte * / const std::byte * (possibly const-qualified itself): a position in a blob."""
+    t = re.sub(r'\s*const$', '', (t or '').strip())
+    return t.endswith('*') and 'byte' in t
+
+
+def carries_cursor(t):
+    """The type is a cursor or a pair / tuple one component of which is a cursor."""
+    t = t or ''
+    return is_cursor_type(t) or bool(re.search(r'byte \*\s*(const)?\s*[>,]', t))
+
+
+def _leaves_block(s):
+    """The statement ends by leaving the enclosing block (continue / break / return)."""
+    while s.get('kind') == 'CompoundStmt' and children(s):
+        s = children(s)[-1]
+    return s.get('kind') in ('ContinueStmt', 'BreakStmt', 'ReturnStmt')
+
 
 class Grammar:
     def __init__(self, func, side):
@@ -178,8 +203,67 @@ class Extractor:
                     fr = 'z'
         g.framing = fr or 'raw'
 
+    def _assigned(self, f):
+        """ids of the locals of f that are written after their declaration."""
+        key = id(f.body)
+        cache = self.__dict__.setdefault('_assigned_cache', {})
+        if key not in cache:
+            ids = set()
+            for n in walk(f.body):
+                k = n.get('kind')
+                tgt = None
+                if k in ('BinaryOperator', 'CompoundAssignOperator') and (n.get('opcode') or '').endswith('=') \
+                        and n.get('opcode') not in ('==', '!=', '<=', '>='):
+                    tgt = children(n)[0]
+                elif k == 'UnaryOperator' and n.get('opcode') in ('++', '--'):
+                    tgt = children(n)[0]
+                elif k == 'CXXOperatorCallExpr':
+                    c = children(n)
+                    nm = (strip(c[0]).get('referencedDecl') or {}).get('name') if c else None
+                    if nm in ('operator=', 'operator+=', 'operator-=', 'operator++', 'operator--') and len(c) > 1:
+                        tgt = c[1]
+                if tgt is not None:
+                    t = strip(tgt, explicit=True)
+                    if t.get('kind') == 'DeclRefExpr':
+                        ids.add((t.get('referencedDecl') or {}).get('id'))
+            cache[key] = ids
+        return cache[key]
+
+    def _phi(self, d, f, env):
+        """Name of a local that is assigned after its declaration: every value it can hold."""
+        vals = []
+        env2 = dict(env)
+        env2[d['id']] = 'local:%s' % d.get('name')
+        init = [x for x in children(d) if not x['kind'].endswith('Attr')]
+        if init:
+            vals.append(self.resolve(init[-1], env2, f.tu))
+        for n in walk(f.body):
+            if n.get('kind') == 'BinaryOperator' and n.get('opcode') == '=':
+                l = strip(children(n)[0], explicit=True)
+                if l.get('kind') == 'DeclRefExpr' and (l.get('referencedDecl') or {}).get('id') == d['id']:
+                    v = self.resolve(children(n)[1], env2, f.tu)
+                    if v not in vals:
+                        vals.append(v)
+        return 'phi(%s)' % '|'.join(vals)
+
+    def _alt(self, cond, t, e, env, tu):
+        """alt item; `if (!X) A else B` is `if (X) B else A`."""
+        c = strip(cond, explicit=True)
+        if c.get('kind') == 'UnaryOperator' and c.get('opcode') == '!':
+            return ('alt', self.resolve(children(c)[0], env, tu), e, t)
+        return ('alt', self.resolve(cond, env, tu), t, e)
+
     def _enc_block(self, stmts, env, f, g, out, depth):
-        for s in stmts:
+        for i, s in enumerate(stmts):
+            if s.get('kind') == 'IfStmt':
+                c = children(s)
+                if len(c) == 2 and _leaves_block(c[1]) and self._has_encode(c[1], f.tu):
+                    # the then-branch leaves the block: the rest of the block is the else arm
+                    t, e = [], []
+                    self._enc_stmt(c[1], dict(env), f, g, t, depth)
+                    self._enc_block(stmts[i + 1:], env, f, g, e, depth)
+                    out.append(self._alt(c[0], t, e, env, f.tu))
+                    return
             self._enc_stmt(s, env, f, g, out, depth)
 
     def _enc_stmt(self, s, env, f, g, out, depth):
@@ -192,10 +276,15 @@ class Extractor:
             for d in children(s):
                 if d.get('kind') == 'VarDecl':
                     init = [x for x in children(d) if not x['kind'].endswith('Attr')]
-                    if init and not self._has_encode(init[-1], tu):
-                        t = d.get('type') or ''
-                        if '*' in t or 'vector' in t:
-                            continue
+                    t = d.get('type') or ''
+                    if '*' in t or 'vector' in t:
+                        if init and self._has_encode(init[-1], tu):
+                            for n in self._encode_calls(init[-1], tu):
+                                self._enc_call(n, env, f, g, out, depth)
+                        continue
+                    if d['id'] in self._assigned(f):
+                        env[d['id']] = self._phi(d, f, env)
+                    elif init and not self._has_encode(init[-1], tu):
                         env[d['id']] = self.resolve(init[-1], env, tu)
             return
         if k == 'CXXForRangeStmt':
@@ -225,7 +314,7 @@ class Extractor:
             env2 = dict(env)
             cnt = '?'
             cn = strip(cond) if cond.get('kind') else {}
-            if cn.get('kind') == 'BinaryOperator' and cn.get('opcode') == '<':
+            if cn.get('kind') == 'BinaryOperator' and cn.get('opcode') in ('<', '!='):
                 cc = children(cn)
                 cnt = self.resolve(cc[1], env, tu)
                 iv = strip(cc[0], explicit=True)
@@ -243,7 +332,7 @@ class Extractor:
             self._enc_stmt(c[1], dict(env), f, g, t, depth)
             if len(c) > 2:
                 self._enc_stmt(c[2], dict(env), f, g, e, depth)
-            out.append(('alt', self.resolve(c[0], env, tu), t, e))
+            out.append(self._alt(c[0], t, e, env, tu))
             return
         if k in ('WhileStmt', 'DoStmt', 'SwitchStmt', 'CXXTryStmt'):
             if self._has_encode(s, tu):
@@ -256,40 +345,121 @@ class Extractor:
     def _has_encode(self, n, tu):
         return any(True for _ in self._encode_calls(n, tu))
 
+    def _emit_kind(self, n, tu):
+        """What a call does with an output cursor it is given: 'prim' (one of the fixed-width primitives
+        L1 checks, or encode_extra), 'fill' / 'copy' (std algorithm writing through the cursor), 'helper'
+        (repository function that takes the cursor and returns the advanced one), 'opaque' (takes and
+        returns a cursor but its body is not available); None = not an emitting call."""
+        if n.get('kind') != 'CallExpr':
+            return None
+        args = children(n)[1:]
+        if not is_cursor_type(n.get('type')) or 'const std::byte' in (n.get('type') or '') or \
+                not any(is_cursor_type(a.get('type')) for a in args):
+            return None
+        d, nm = self.callee(n, tu)
+        nm = nm or ''
+        if nm.startswith('encode_') and (nm[7:] in PRIMS or nm[7:] == 'extra'):
+            return 'prim'
+        qn = tu.qn.get(d['id'], '') if d is not None else ''
+        if nm in STD_FILL and (qn.startswith('std::') or not qn):
+            return 'fill'
+        if nm in STD_COPY and (qn.startswith('std::') or not qn):
+            return 'copy'
+        cf = self.repo_function(d, tu)
+        if cf is not None and cf.body is not None:
+            return 'helper'
+        return 'opaque'
+
     def _encode_calls(self, n, tu):
-        """Outermost calls to encode_* functions in n (document order)."""
+        """Outermost emitting calls in n (document order)."""
         k = n.get('kind')
-        if k == 'CallExpr':
-            d, nm = self.callee(n, tu)
-            if nm and nm.startswith('encode_'):
-                # nested encode calls in arguments come first (evaluation order of
-                # `encode(a, encode(b, ptr))` is inner first)
-                for a in children(n)[1:]:
-                    for x in self._encode_calls(a, tu):
-                        yield x
-                yield n
-                return
+        if k == 'CallExpr' and self._emit_kind(n, tu):
+            # nested emitting calls in arguments come first (evaluation order of
+            # `encode(a, encode(b, ptr))` is inner first)
+            for a in children(n)[1:]:
+                for x in self._encode_calls(a, tu):
+                    yield x
+            yield n
+            return
         if k == 'LambdaExpr':
             return
         for c in children(n):
             for x in self._encode_calls(c, tu):
                 yield x
 
+    def _range_container(self, first, last, env, tu):
+        """X for the iterator pair (X.begin(), X.end()) / (begin(X), end(X)); None otherwise."""
+        names = []
+        for it_, want in ((first, ('begin', 'cbegin')), (last, ('end', 'cend'))):
+            e = strip(it_, explicit=True)
+            while e.get('kind') == 'CXXConstructExpr' and len(children(e)) == 1:
+                e = strip(children(e)[0], explicit=True)
+            if e.get('kind') == 'CXXMemberCallExpr':
+                callee = strip(children(e)[0])
+                if callee.get('name') in want and children(callee):
+                    names.append(self.resolve(children(callee)[0], env, tu))
+                    continue
+            if e.get('kind') == 'CallExpr' and self.callee(e, tu)[1] in want and len(children(e)) == 2:
+                names.append(self.resolve(children(e)[1], env, tu))
+                continue
+            return None
+        return names[0] if names[0] == names[1] else None
+
+    @staticmethod
+    def _is_identity_lambda(lam):
+        """The lambda returns its single parameter, converted by casts only."""
+        lam = strip(lam, explicit=True)
+        while lam.get('kind') == 'CXXConstructExpr' and len(children(lam)) == 1:
+            lam = strip(children(lam)[0], explicit=True)
+        if lam.get('kind') != 'LambdaExpr':
+            return False
+        body = [c for c in children(lam) if c.get('kind') == 'CompoundStmt']
+        if not body:
+            return False
+        st = children(body[-1])
+        if len(st) != 1 or st[0].get('kind') != 'ReturnStmt' or not children(st[0]):
+            return False
+        e = strip(children(st[0])[0], explicit=True)
+        while e.get('kind') in ('CXXConstructExpr', 'InitListExpr') and len(children(e)) == 1:
+            e = strip(children(e)[0], explicit=True)
+        return e.get('kind') == 'DeclRefExpr' and (e.get('referencedDecl') or {}).get('kind') == 'ParmVarDecl'
+
     def _enc_call(self, n, env, f, g, out, depth):
         tu = f.tu
         d, nm = self.callee(n, tu)
         args = children(n)[1:]
-        p = nm[len('encode_'):]
-        if p in PRIMS:
-            out.append(('prim', p, self.resolve(args[0], env, tu)))
-            g.locs[len(g.locs)] = locstr(n)
-            return
-        if p == 'extra':
-            fld = self.resolve(args[0], env, tu)
+        kind = self._emit_kind(n, tu)
+        vals = [a for a in args if not is_cursor_type(a.get('type'))]
+        if kind == 'prim':
+            p = nm[len('encode_'):]
+            if p in PRIMS:
+                out.append(('prim', p, self.resolve(vals[0], env, tu)))
+                g.locs[len(g.locs)] = locstr(n)
+                return
+            fld = self.resolve(vals[0], env, tu)
             out.append(('bytes', 'size(%s)' % fld, fld))
             return
+        if kind == 'fill':
+            # std::fill_n(cursor, N, byte): N bytes of one value
+            if len(args) == 3 and is_cursor_type(args[0].get('type')):
+                cnt = self.resolve(args[1], env, tu)
+                if cnt.startswith('const:'):
+                    out.append(('repeat', cnt, [('prim', 'uint8', self.resolve(args[2], env, tu))]))
+                    return
+            g.unknown.append('std::%s at %s writes a run the extractor cannot size' % (nm, locstr(n)))
+            return
+        if kind == 'copy':
+            # std::copy(first, last, cursor) / std::transform(first, last, cursor, cast-only lambda):
+            # one byte per element of the source range
+            if len(args) >= 3 and is_cursor_type(args[2].get('type')):
+                cont = self._range_container(args[0], args[1], env, tu)
+                if cont is not None and (len(args) == 3 or (len(args) == 4 and self._is_identity_lambda(args[3]))):
+                    out.append(('repeat', 'size(%s)' % cont, [('prim', 'uint8', '%s[]' % cont)]))
+                    return
+            g.unknown.append('std::%s at %s writes a run the extractor cannot describe' % (nm, locstr(n)))
+            return
         cf = self.repo_function(d, tu)
-        if cf is None or cf.body is None or depth > 3:
+        if kind != 'helper' or depth > 3:
             g.unknown.append('call to %s at %s cannot be inlined' % (nm, locstr(n)))
             return
         env2 = {}
@@ -319,8 +489,20 @@ class Extractor:
 
     def _late_locals(self, f, env):
         """A local that is later stored into a member of the result (possibly
-        through a conversion) is named after that member."""
+        through a conversion, possibly through further locals) is named after that member."""
         cand = {}
+
+        def feed(rhs, name):
+            for y in walk(rhs):
+                if y.get('kind') == 'DeclRefExpr' and (y.get('referencedDecl') or {}).get('kind') in ('VarDecl', 'BindingDecl'):
+                    vid = y['referencedDecl']['id']
+                    vd = f.tu.ids.get(vid)
+                    if vd is None or vid in env:
+                        continue
+                    t = vd.get('type') or ''
+                    if '*' in t:
+                        continue
+                    cand.setdefault(vid, set()).add(name)
         for n in walk(f.body):
             lhs = rhs = None
             if n.get('kind') == 'BinaryOperator' and n.get('opcode') == '=':
@@ -335,24 +517,37 @@ class Extractor:
             if l.get('kind') == 'CallExpr':
                 continue
             name = self.resolve(lhs, env, f.tu)
-            if name.startswith(('local:', 'expr', 'call', 'const', 'cond', 'ctor')) or name in ('', 'ignored'):
+            if name.startswith(('local:', 'expr', 'call', 'const', 'cond', 'ctor', 'phi(')) or name in ('', 'ignored'):
                 continue
-            for y in walk(rhs):
-                if y.get('kind') == 'DeclRefExpr' and (y.get('referencedDecl') or {}).get('kind') == 'VarDecl':
-                    vid = y['referencedDecl']['id']
-                    vd = f.tu.ids.get(vid)
-                    if vd is None or vid in env:
-                        continue
-                    t = vd.get('type') or ''
-                    if '*' in t:
-                        continue
-                    cand.setdefault(vid, set()).add(name)
+            feed(rhs, name)
+        # a local initialised from other locals and stored into one member: the locals it is computed
+        # from carry that member's value (`const auto key_num = raw_key == 0 ? nullopt : raw_key;`)
+        for _ in range(3):
+            grew = False
+            for n in walk(f.body):
+                if n.get('kind') == 'VarDecl' and len(cand.get(n.get('id'), ())) == 1:
+                    init = [x for x in children(n) if not x['kind'].endswith('Attr')]
+                    if init:
+                        before = sum(len(v) for v in cand.values())
+                        feed(init[-1], next(iter(cand[n['id']])))
+                        grew = grew or sum(len(v) for v in cand.values()) != before
+            if not grew:
+                break
         for vid, names in cand.items():
             if len(names) == 1:
                 env[vid] = next(iter(names))
 
     def _dec_block(self, stmts, env, f, g, out, depth):
-        for s in stmts:
+        for i, s in enumerate(stmts):
+            if s.get('kind') == 'IfStmt':
+                c = children(s)
+                if len(c) == 2 and _leaves_block(c[1]) and self._consumes(c[1], f.tu):
+                    # the then-branch leaves the block: the rest of the block is the else arm
+                    t, e = [], []
+                    self._dec_stmt(c[1], dict(env), f, g, t, depth)
+                    self._dec_block(stmts[i + 1:], env, f, g, e, depth)
+                    out.append(self._alt(c[0], t, e, env, f.tu))
+                    return
             self._dec_stmt(s, env, f, g, out, depth)
 
     def _dec_stmt(self, s, env, f, g, out, depth):
@@ -363,6 +558,17 @@ class Extractor:
             return
         if k == 'DeclStmt':
             for d in children(s):
+                if d.get('kind') == 'DecompositionDecl':
+                    # auto [value, next] = decode_X(cursor);
+                    init = [x for x in children(d) if x.get('kind') != 'BindingDecl' and not x['kind'].endswith('Attr')]
+                    binds = [x for x in children(d) if x.get('kind') == 'BindingDecl']
+                    calls = [y for y in (walk(init[-1]) if init else ()) if self._consume_kind(y, tu)]
+                    if calls and binds:
+                        self._dec_call(calls[0], [{'kind': 'DeclRefExpr', 'referencedDecl': {
+                            'id': binds[0]['id'], 'name': binds[0].get('name'), 'kind': 'BindingDecl'}}], env, f, g, out, depth)
+                    elif init and self._consumes(init[-1], tu):
+                        g.unknown.append('unrecognised consuming declaration at %s' % locstr(s))
+                    continue
                 if d.get('kind') != 'VarDecl':
                     continue
                 t = d.get('type') or ''
@@ -375,6 +581,22 @@ class Extractor:
                         if len(args) == 1:
                             src = self.resolve(args[0], env, tu)
                             g.notes.append(('sized', env.get(d['id'], 'local:%s%s' % (d.get('name'), env.get('__tag', ''))), src))
+                if not init:
+                    continue
+                # T& x = <place>: another name of that place
+                if t.strip().endswith('&') and d['id'] not in env and not self._consumes(init[-1], tu):
+                    env[d['id']] = self.resolve(init[-1], env, tu)
+                    continue
+                if self._scans_rest(init[-1], tu):
+                    out.append(('bytes', 'rest', 'trailing'))
+                    continue
+                if self._consumes(init[-1], tu):
+                    calls = [y for y in walk(init[-1]) if self._consume_kind(y, tu)]
+                    e = strip(init[-1], explicit=True)
+                    if is_cursor_type(t) and len(calls) == 1 and e is calls[0] and self._consume_kind(e, tu) == 'helper':
+                        self._dec_call(e, [], env, f, g, out, depth)     # const std::byte* next = helper(cursor, ...)
+                    else:
+                        g.unknown.append('unrecognised consuming declaration at %s' % locstr(s))
             return
         if k == 'CXXForRangeStmt':
             inner = s.get('inner', [])
@@ -426,10 +648,14 @@ class Extractor:
             c = children(s)
             if any(x.get('kind') == 'UnaryOperator' and x.get('opcode') == '++' for x in walk(c[-1])):
                 out.append(('bytes', 'rest', 'trailing'))
+            elif self._consumes(s, tu):
+                g.unknown.append('consumption inside %s at %s' % (k, locstr(s)))
             return
         if k == 'IfStmt':
             c = children(s)
             cn = strip(c[0])
+            if self._scans_rest(c[0], tu):
+                out.append(('bytes', 'rest', 'trailing'))
             if cn.get('kind') == 'BinaryOperator' and cn.get('opcode') == '!=' and len(c) > 1 and \
                     any(x.get('kind') == 'CXXThrowExpr' for x in walk(c[1])):
                 cc = children(cn)
@@ -440,7 +666,7 @@ class Extractor:
             self._dec_stmt(c[1], dict(env), f, g, t, depth)
             if len(c) > 2:
                 self._dec_stmt(c[2], dict(env), f, g, e, depth)
-            out.append(('alt', self.resolve(c[0], env, tu), t, e))
+            out.append(self._alt(c[0], t, e, env, tu))
             return
         if k == 'CXXTryStmt':
             c = children(s)
@@ -455,9 +681,40 @@ class Extractor:
     def _has_decode(self, n, tu):
         return self._consumes(n, tu)
 
+    def _consume_kind(self, n, tu):
+        """What a call does with an input cursor it is given: 'prim' (fixed-width primitive of L1 or
+        decode_extra), 'helper' (repository function that takes the cursor and returns the advanced one,
+        alone or in a pair with the value read), 'opaque' (the same without a body); None otherwise."""
+        if n.get('kind') != 'CallExpr':
+            return None
+        args = children(n)[1:]
+        if not carries_cursor(n.get('type')) or not any(is_cursor_type(a.get('type')) for a in args):
+            return None
+        d, nm = self.callee(n, tu)
+        nm = nm or ''
+        if nm.startswith('decode_') and (nm[7:] in PRIMS or nm[7:] == 'extra'):
+            return 'prim'
+        cf = self.repo_function(d, tu)
+        if cf is not None and cf.body is not None:
+            return 'helper'
+        return 'opaque'
+
+    def _scans_rest(self, n, tu):
+        """n contains a std algorithm that visits every byte of [cursor, end)."""
+        for x in walk(n):
+            if x.get('kind') == 'CallExpr':
+                d, nm = self.callee(x, tu)
+                args = children(x)[1:]
+                if nm in STD_SCAN and len(args) >= 2 and is_cursor_type(args[0].get('type')) \
+                        and is_cursor_type(args[1].get('type')):
+                    return True
+        return False
+
     def _consumes(self, n, tu):
         for x in walk(n):
             if x.get('kind') == 'CallExpr':
+                if self._consume_kind(x, tu):
+                    return True
                 d, nm = self.callee(x, tu)
                 if nm and nm.startswith('decode_'):
                     return True
@@ -465,7 +722,7 @@ class Extractor:
                 l = strip(children(x)[0], explicit=True)
                 if (l.get('type') or '').strip().endswith('*'):
                     return True
-        return False
+        return self._scans_rest(n, tu)
 
     def _dec_expr(self, s, env, f, g, out, depth):
         tu = f.tu
@@ -478,11 +735,18 @@ class Extractor:
                 l = strip(c[1])
                 if l.get('kind') == 'CallExpr' and self.callee(l, tu)[1] == 'tie':
                     targets = children(l)[1:]
-                    calls = [y for y in walk(c[2]) if y.get('kind') == 'CallExpr'
-                             and (self.callee(y, tu)[1] or '').startswith('decode_')]
+                    calls = [y for y in walk(c[2]) if self._consume_kind(y, tu)]
                     if calls:
                         self._dec_call(calls[0], targets, env, f, g, out, depth)
                         return
+        if k == 'BinaryOperator' and x.get('opcode') == '=':
+            # cursor = helper(cursor, ...): the helper consumes and hands back the advanced cursor
+            c = children(x)
+            l = strip(c[0], explicit=True)
+            r = strip(c[1], explicit=True)
+            if is_cursor_type(l.get('type')) and self._consume_kind(r, tu) in ('helper', 'opaque'):
+                self._dec_call(r, [], env, f, g, out, depth)
+                return
         if k == 'CompoundAssignOperator' and x.get('opcode') == '+=':
             c = children(x)
             l = strip(c[0], explicit=True)
@@ -509,7 +773,12 @@ class Extractor:
                 if args:
                     g.notes.append(('sized', cont, self.resolve(args[0], env, tu)))
                 return
+        if self._scans_rest(s, tu) and not any(self._consume_kind(y, tu) for y in walk(s)):
+            out.append(('bytes', 'rest', 'trailing'))
+            return
         if k == 'ReturnStmt' or s.get('kind') == 'ReturnStmt':
+            if any(self._consume_kind(y, tu) for y in walk(s)):
+                g.unknown.append('consuming call in a return statement at %s' % locstr(s))
             return
         # any other statement that contains a decode call is outside the subset
         if s.get('kind') not in ('ReturnStmt',) and self._consumes(s, tu) and k not in ('CXXThrowExpr',):
@@ -518,28 +787,36 @@ class Extractor:
     def _dec_call(self, n, targets, env, f, g, out, depth):
         tu = f.tu
         d, nm = self.callee(n, tu)
-        p = nm[len('decode_'):]
+        kind = self._consume_kind(n, tu)
         tgt = self.resolve(targets[0], env, tu) if targets else 'ignored'
-        if p in PRIMS:
-            out.append(('prim', p, tgt))
-            return
-        if p == 'extra':
+        if kind == 'prim':
+            p = nm[len('decode_'):]
+            if p in PRIMS:
+                out.append(('prim', p, tgt))
+                return
             out.append(('bytes', 'rest', tgt))
             return
         cf = self.repo_function(d, tu)
-        if cf is None or cf.body is None or depth > 3:
+        if kind != 'helper' or depth > 3:
             g.unknown.append('call to %s at %s cannot be inlined' % (nm, locstr(n)))
             return
         self.inl = getattr(self, 'inl', 0) + 1
         env2 = {'__tag': '#%d' % self.inl}
-        # the callee's returned container is the caller's target
-        for r in walk(cf.body):
-            if r.get('kind') == 'ReturnStmt':
-                for y in walk(r):
-                    if y.get('kind') == 'DeclRefExpr' and (y.get('referencedDecl') or {}).get('kind') == 'VarDecl':
-                        vd = cf.tu.ids.get(y['referencedDecl']['id'])
-                        if vd is not None and 'vector' in (vd.get('type') or ''):
-                            env2[vd['id']] = tgt
+        # value and reference parameters stand for the caller's arguments
+        for prm, a in zip(cf.params, children(n)[1:]):
+            if is_cursor_type(prm.get('type')):
+                continue
+            env2[prm['id']] = self.resolve(a, env, tu)
+        # the object the callee returns (next to the cursor) is the caller's target
+        if targets:
+            for r in walk(cf.body):
+                if r.get('kind') == 'ReturnStmt':
+                    for y in walk(r):
+                        if y.get('kind') == 'DeclRefExpr' and (y.get('referencedDecl') or {}).get('kind') == 'VarDecl':
+                            vd = cf.tu.ids.get(y['referencedDecl']['id'])
+                            if vd is not None and '*' not in (vd.get('type') or ''):
+                                env2[vd['id']] = tgt
+                                break
         self._dec_block(children(cf.body), env2, cf, g, out, depth + 1)
 
 
@@ -774,14 +1051,14 @@ def primitive_facts(prog):
                 continue
             f = fs[0]
             try:
-                res[name] = _prim_check(f, p, side)
+                res[name] = _prim_check(f, p, side, prog)
             except (IndexError, KeyError, TypeError) as e:
                 res[name] = (None, 'construct outside the recognised forms: %r' % e)
             res[name] = res[name] + (f,)
     return res
 
 
-def _prim_check(f, p, side):
+def _prim_check(f, p, side, prog=None):
     params = {x.get('name'): x['id'] for x in f.params}
     pid = [x['id'] for x in f.params if (x.get('type') or '').strip().endswith('*')]
     if len(pid) != 1:
@@ -862,9 +1139,17 @@ def _prim_check(f, p, side):
             return (True, 'two int32 halves, shifts %s' % shifts)
         # decode: targets of the two tie-assignments in order, then combination
         targets = []
+        chain = []      # (cursor read, cursor produced) per structured binding
         for n in walk(f.body):
             if n.get('kind') == 'CallExpr' and (strip(children(n)[0]).get('referencedDecl') or {}).get('name') == 'tie':
                 targets.append(_refid(children(n)[1]))
+            elif n.get('kind') == 'DecompositionDecl':
+                # auto [half, next] = decode_int32_xx(cursor);
+                b = [x for x in children(n) if x.get('kind') == 'BindingDecl']
+                mine = [c for c in calls if any(c[1] is y for y in walk(n))]
+                if len(b) == 2 and mine:
+                    targets.append(b[0].get('id'))
+                    chain.append((_refid(children(mine[0][1])[1]), b[1].get('id')))
         terms = []
         ok = False
         for vd in [n for n in walk(f.body) if n.get('kind') == 'VarDecl']:
@@ -876,6 +1161,12 @@ def _prim_check(f, p, side):
                     break
         if not ok or len(targets) != 2:
             return (None, 'combination of the two halves not recognised')
+        if chain:
+            # each half is read where the previous read ended, and the cursor after the second is returned
+            rets = [_refid(y) for n in walk(f.body) if n.get('kind') == 'ReturnStmt' for y in walk(n)
+                    if y.get('kind') == 'DeclRefExpr']
+            if len(chain) != 2 or chain[0][0] != pid or chain[1][0] != chain[0][1] or chain[1][1] not in rets:
+                return (False, 'the two halves are not read one after the other from the cursor that is returned')
         m = dict(terms)
         got = [m.get(targets[0]), m.get(targets[1])]
         if got != want:
@@ -886,10 +1177,25 @@ def _prim_check(f, p, side):
         calls = _calls(f, side + '_')
         if [c[0] for c in calls] != [sub]:
             return (False, 'expected one call to %s, found %s' % (sub, [c[0] for c in calls]))
-        mem = [n for n in walk(f.body) if n.get('kind') == 'CallExpr'
+        # the bit pattern is carried over by one memcpy of 8 bytes, in the primitive itself or in a
+        # repository helper it calls for the conversion
+        bodies = [f.body]
+        if prog is not None:
+            for n in walk(f.body):
+                if n.get('kind') == 'CallExpr' and not any(n is c[1] for c in calls):
+                    ref = strip(children(n)[0]).get('referencedDecl') or {}
+                    d = f.tu.ids.get(ref.get('id'))
+                    for t in (prog.definitions_for(f.tu, d) if d is not None else []):
+                        if t.body is not None and prog.in_repo(t.file):
+                            bodies.append(t.body)
+        mem = [n for b in bodies for n in walk(b) if n.get('kind') == 'CallExpr'
                and (strip(children(n)[0]).get('referencedDecl') or {}).get('name') == 'memcpy']
         if len(mem) != 1 or _int(children(mem[0])[3]) != 8:
             return (False, 'expected one memcpy of 8 bytes between the double and the int64')
+        types = sorted(re.sub(r'\s*\*$', '', (strip(a, explicit=True).get('type') or '').replace('const ', '')).strip()
+                       for a in children(mem[0])[1:3])
+        if not (types[0] == 'double' and types[1] in ('int64_t', 'long', 'long long')):
+            return (False, 'the memcpy is not between a double and an int64 (%s)' % types)
         return (True, 'bit pattern via memcpy(8) and %s' % sub)
     return (None, 'unknown primitive')
 
@@ -924,7 +1230,7 @@ def linearise(items):
 
 
 def is_plain(field):
-    return field is not None and not field.startswith(('local:', 'const:', 'expr', 'cond(', 'call(', 'ctor')) \
+    return field is not None and not field.startswith(('local:', 'const:', 'expr', 'cond(', 'call(', 'ctor', 'phi(')) \
         and field not in ('ignored', '?', 'index')
 
 
